@@ -15,7 +15,12 @@ RULE = ("exhaustive: every symbol of every DNA encoding (ASCII: the ten letters 
         "stranded=False) / genomic_sequence[intervals] (stranded iff the interval object is) / the indexed-FASTA backend with "
         "wrapped lines / chromosome access; transcript sequences (genes.py) incl. an empty table; encodings that are not DNA "
         "(must be refused); fresh views of ragged inputs and of the interval table; >= 17 intervals/rows; call sequences whose "
-        "results are read after the last call")
+        "results are read after the last call; pipelines over TABLES of sequences: carrier kinds (lazy file-backed FASTQ / FASTQ "
+        "chunks / SAM tables, eagerly read FASTA, SequenceEntry(+quality) made in memory or from tuples, bare array) x "
+        "compositions rc.rc, translate.rc, ... with replace / same-column replace / row selection / split-and-concatenate in "
+        "between, every stage read after the last step; genomic_sequence[intervals] with DERIVED interval objects (clip, "
+        "index list/array/mask/slice, sorted, replace, concatenate; windows around stranded locations and interval midpoints; "
+        "read from a BED file) judged on the intervals the derived object must denote")
 EXHAUSTIVE = {"quick": False, "thorough": False}
 MODEL_OPS = {"rc", "strand", "translate", "transcripts"}
 CASE_TIMEOUT_S = 60
@@ -200,6 +205,8 @@ def oracle(c):
         return SKIP if any(isinstance(r, core.Skip) for r in res) else {"results": res}
     if op == "translate_custom":
         return {"any": True}      # what a user table returns is not the property's business; what follows it is
+    if op == "pipe":
+        return _pipe_expect(c)
     if op == "rc":
         views = [_enc_view(c["enc"], r) for r in c["rows"]]
         if any(v is None for v in views):
@@ -243,6 +250,54 @@ def oracle(c):
             return SKIP            # a GTF line cannot express an empty exon
         return _transcripts_expect(c["seq"], c["exons"])
     raise ValueError(op)
+
+
+def _pipe_expect(c):
+    """a pipeline over a table of sequences: every stage's sequence column is the function of the PREVIOUS stage's column"""
+    rows = [list(r) for r in c["rows"]]
+    if any(b not in DNA10 for r in rows for b in r):
+        return SKIP
+    names = list(range(len(rows)))
+    stages = [{"names": names, "rows": rows}]
+    protein = False
+    for st in c["steps"]:
+        k = st[0]
+        if protein:
+            return SKIP              # nothing in the property applies to amino acids
+        if k == "rc":
+            new = []
+            for r in rows:
+                x = _revcomp(r)
+                _bio_check("rc", r, x)
+                new.append(x)
+            rows = new
+        elif k == "translate":
+            if any(len(r) % 3 for r in rows) or any(_up(b) not in (65, 67, 71, 84) for r in rows for b in r):
+                return SKIP
+            new = []
+            for r in rows:
+                x = _translate(r)
+                _bio_check("tr", [_up(b) for b in r], x)
+                new.append(x)
+            rows = new
+            protein = True
+        elif k == "replace":
+            if len(st[1]) != len(rows) or any(b not in DNA10 for r in st[1] for b in r):
+                return SKIP
+            rows = [list(r) for r in st[1]]
+        elif k in ("same", "concat"):
+            pass
+        elif k == "idx":
+            if any(not (0 <= i < len(rows)) for i in st[1]):
+                return SKIP
+            rows = [rows[i] for i in st[1]]
+            names = [names[i] for i in st[1]]
+        else:
+            raise ValueError(k)
+        stages.append({"names": names, "rows": rows})
+    if c["carrier"] == "ragged":
+        stages = [{"rows": st["rows"]} for st in stages]
+    return {"stages": stages}
 
 
 def _transcripts_expect(seq, ex, per_transcript=False):
@@ -442,6 +497,8 @@ def _call(c):
             rows, enc = _rows_out(o, E)
             return {"rows": rows, "enc_same": bool(enc == E)}
         return r, canon_rc
+    if op == "pipe":
+        return _pipe_run(c)
     if op == "rc_unsupported":
         from bionumpy.encodings import alphabet_encoding as ae
         import bionumpy as bnp
@@ -505,7 +562,12 @@ def _call(c):
                     if c.get("ctx_extra_first"):
                         sizes = dict(list(sizes.items())[::-1])
                     genome = bnp.Genome.from_dict(sizes)
-                r = gs[genome.get_intervals(bed, stranded=(via == "genomic"))]
+                if "gi" in c:
+                    # the interval object is not fresh: it was DERIVED (clipped, selected, sorted, replaced, concatenated, made
+                    # as windows around locations, read from a BED file); c["ivs"] are the intervals it must then denote
+                    r = gs[_derived_intervals(c, genome, names, via == "genomic")]
+                else:
+                    r = gs[genome.get_intervals(bed, stranded=(via == "genomic"))]
             else:
                 r = gs.extract_intervals(bed, stranded=(via == "genomic"))
 
@@ -567,6 +629,162 @@ def _call(c):
             return out
         return r, canon_tr
     raise ValueError(op)
+
+
+LAZY_CARRIERS = ("fastq", "fastq_chunks", "sam")
+PIPE_CARRIERS = ("fastq", "fastq_chunks", "sam", "fasta", "entry", "entryq", "tuples", "ragged")
+_PIPE_N = [0]
+
+
+def _pipe_start(c):
+    """the parts (one table, or the chunks of one file) the pipeline starts from"""
+    import os
+    import bionumpy as bnp
+    from bionumpy.encoded_array import as_encoded_array
+    from bionumpy.datatypes import SequenceEntry, SequenceEntryWithQuality
+    carrier = c["carrier"]
+    texts = [_text(r) for r in c["rows"]]
+    names = [f"s{i}" for i in range(len(texts))]
+    _PIPE_N[0] += 1
+    stem = os.path.join(_tmpdir(), f"p{os.getpid()}_{_PIPE_N[0]}")
+    if carrier in ("fastq", "fastq_chunks"):
+        path = stem + ".fq"
+        with open(path, "w") as fh:
+            for n, t in zip(names, texts):
+                fh.write(f"@{n}\n{t}\n+\n{'I' * len(t)}\n")
+        if carrier == "fastq":
+            return [bnp.open(path).read()]
+        return list(bnp.open(path).read_chunks(min_chunk_size=c.get("chunk", 40)))
+    if carrier == "sam":
+        path = stem + ".sam"
+        with open(path, "w") as fh:
+            fh.write("@HD\tVN:1.6\n@SQ\tSN:chr1\tLN:100000\n")
+            for i, (n, t) in enumerate(zip(names, texts)):
+                fh.write(f"{n}\t0\tchr1\t{i + 1}\t60\t{len(t)}M\t*\t0\t0\t{t}\t{'I' * len(t)}\n")
+        return [bnp.open(path).read()]
+    if carrier == "fasta":
+        path = stem + ".fa"
+        w = c.get("width", 60)
+        with open(path, "w") as fh:
+            for n, t in zip(names, texts):
+                fh.write(f">{n}\n")
+                for i in range(0, len(t), w):
+                    fh.write(t[i:i + w] + "\n")
+        return [bnp.open(path).read()]
+    if carrier == "entry":
+        return [SequenceEntry(names, texts)]
+    if carrier == "entryq":
+        return [SequenceEntryWithQuality(names, texts, ["I" * len(t) for t in texts])]
+    if carrier == "tuples":
+        return [SequenceEntry.from_entry_tuples(list(zip(names, texts)))]
+    if carrier == "ragged":
+        return [as_encoded_array(texts)]
+    raise ValueError(carrier)
+
+
+def _pipe_step(part, st, table):
+    import bionumpy as bnp
+    from bionumpy.encoded_array import as_encoded_array
+    from bionumpy.sequence import get_reverse_complement, translate_dna_to_protein
+    k = st[0]
+    if k == "rc":
+        return get_reverse_complement(part)
+    if k == "translate":
+        return translate_dna_to_protein(part)
+    if k == "replace":
+        new = as_encoded_array([_text(r) for r in st[1]])
+        return bnp.replace(part, sequence=new) if table else new
+    if k == "same":
+        return bnp.replace(part, sequence=part.sequence) if table else part
+    if k == "idx":
+        return part[list(st[1])]
+    if k == "concat":
+        return np.concatenate([part[:st[1]], part[st[1]:]])
+    raise ValueError(k)
+
+
+def _pipe_run(c):
+    """every stage object is kept and read only after the last step (a derived table must carry ITS OWN sequence column: not
+    the one of the table it was derived from, not an earlier replacement)"""
+    table = c["carrier"] != "ragged"
+    stages = [_pipe_start(c)]
+    for st in c["steps"]:
+        stages.append([_pipe_step(part, st, table) for part in stages[-1]])
+
+    def canon_pipe(stages_):
+        out = []
+        for parts in stages_:
+            rows, names = [], []
+            for part in parts:
+                rows += _rows_out(part.sequence if table else part, None)[0]
+                if table:
+                    names += [int(x.to_string()[1:]) for x in part.name]
+            out.append({"names": names, "rows": rows} if table else {"rows": rows})
+        return {"stages": out}
+    return stages, canon_pipe
+
+
+_BED_N = [0]
+
+
+def _derived_intervals(c, genome, names, stranded):
+    """build the GenomicIntervals of the case along c["gi"] = {origin, steps}"""
+    import os
+    import bionumpy as bnp
+    from bionumpy.datatypes import Bed6
+    g = c["gi"]
+    origin = g["origin"]
+    if origin in ("ivs", "bedfile"):
+        ivs0 = g["ivs0"]
+        bed = Bed6([names[i[0]] for i in ivs0], [i[1] for i in ivs0], [i[2] for i in ivs0], ["x"] * len(ivs0),
+                   [0] * len(ivs0), [chr(i[3]) for i in ivs0])
+        if origin == "bedfile":
+            _BED_N[0] += 1
+            path = os.path.join(_tmpdir(), f"iv{os.getpid()}_{_BED_N[0]}.bed")
+            with open(path, "w") as fh:
+                for i in ivs0:
+                    fh.write(f"{names[i[0]]}\t{i[1]}\t{i[2]}\tx\t0\t{chr(i[3])}\n")
+            gi = genome.read_intervals(path, stranded=stranded)
+        else:
+            gi = genome.get_intervals(bed, stranded=stranded)
+    else:
+        from bionumpy.genomic_data.genomic_intervals import GenomicLocation
+        if origin == "loc":
+            locs = g["locs"]
+            loc = GenomicLocation.from_fields(genome.get_genome_context(), [names[x[0]] for x in locs], [x[1] for x in locs],
+                                              [chr(x[2]) for x in locs] if stranded else None)
+        else:            # "center": the midpoints of intervals
+            ivs0 = g["ivs0"]
+            bed = Bed6([names[i[0]] for i in ivs0], [i[1] for i in ivs0], [i[2] for i in ivs0], ["x"] * len(ivs0),
+                       [0] * len(ivs0), [chr(i[3]) for i in ivs0])
+            loc = genome.get_intervals(bed, stranded=stranded).get_location("center")
+        for st in g.get("loc_steps", []):
+            if st[0] == "idx":
+                loc = loc[list(st[1])]
+            elif st[0] == "sorted":
+                loc = loc.sorted()
+        gi = loc.get_windows(flank=g["flank"])
+    for st in g["steps"]:
+        k = st[0]
+        if k == "clip":
+            gi = gi.clip()
+        elif k == "idx":
+            gi = gi[list(st[1])]
+        elif k == "idxarr":
+            gi = gi[np.array(st[1], dtype=int)]
+        elif k == "mask":
+            gi = gi[np.array(st[1], dtype=bool)]
+        elif k == "slice":
+            gi = gi[st[1]:st[2]]
+        elif k == "sorted":
+            gi = gi.sorted()
+        elif k == "replace":
+            gi = bnp.replace(gi, start=gi.start) if st[1] == "start" else bnp.replace(gi, stop=gi.stop)
+        elif k == "concat":
+            gi = np.concatenate([gi[:st[1]], gi[st[1]:]])
+        else:
+            raise ValueError(k)
+    return gi
 
 
 def _err(e):
@@ -719,6 +937,8 @@ def _codes(enc, s):
 
 def model_request(c):
     op = c["op"]
+    if op == "pipe":
+        return None
     if op in ("seq", "fresh", "translate_custom"):
         return None      # the Lean model is pure: a sequence of calls is the list of the single calls (compared there)
     if op == "rc":
@@ -836,6 +1056,162 @@ def _sequences(rng, n_seq):
         yield {"op": "seq", "calls": calls}
 
 
+def _pipes(rng, n):
+    """pipelines over tables of sequences: the carrier kinds (file-backed lazy tables: FASTQ, FASTQ chunks, SAM; eagerly read
+    FASTA; tables made in memory; a bare array) x compositions of the property's functions with the table operations that sit
+    between them in user code (replace a column, select rows, concatenate)"""
+    up = [84, 67, 65, 71]
+    for _ in range(n):
+        carrier = rng.choice(PIPE_CARRIERS + LAZY_CARRIERS)
+        coding = rng.random() < 0.5
+        no_empty = carrier in ("sam", "fasta")
+
+        def row():
+            if coding:
+                k = rng.choice([1, 2, 3, 5] if no_empty else [0, 1, 2, 3, 5])
+                return [b + 32 * (rng.random() < 0.15) for _ in range(k) for b in (rng.choice(up), rng.choice(up), rng.choice(up))]
+            return [rng.choice(DNA10) for _ in range(rng.choice([1, 2, 3, 5, 9] if no_empty else [0, 1, 2, 3, 5, 9]))]
+        rows = [row() for _ in range(rng.choice([1, 2, 3, 4, 6]))]
+        if not any(rows):
+            rows[0] = [84, 71, 65]
+        count = len(rows)
+        if carrier == "fastq_chunks":
+            kinds = rng.choice([["rc"], ["rc", "rc"], ["rc", "rc", "rc"], ["same", "rc"], ["rc", "same", "rc"]] +
+                               ([["rc", "translate"], ["translate"], ["rc", "rc", "translate"]] if coding else []))
+        else:
+            fixed = [["rc"], ["rc", "rc"], ["rc", "rc", "rc"], ["replace", "rc"], ["rc", "replace"], ["rc", "replace", "rc"],
+                     ["same", "rc"], ["rc", "same", "rc"], ["idx", "rc", "rc"], ["rc", "idx", "rc"], ["rc", "concat", "rc"],
+                     ["replace", "replace"], ["rc", "rc", "replace"], ["replace", "idx", "rc"]]
+            if coding:
+                fixed += [["rc", "translate"], ["translate"], ["rc", "rc", "translate"], ["replace", "translate"],
+                          ["rc", "replace", "translate"], ["same", "translate"], ["rc", "idx", "translate"], ["rc", "concat", "translate"]]
+            if rng.random() < 0.7:
+                kinds = rng.choice(fixed)
+            else:
+                kinds = [rng.choice(["rc", "rc", "replace", "same", "idx", "concat"]) for _ in range(rng.choice([2, 3, 4]))]
+                if coding and rng.random() < 0.5:
+                    kinds.append("translate")
+        steps = []
+        for k in kinds:
+            if k == "replace":
+                steps.append(["replace", [row() for _ in range(count)]])
+            elif k == "idx":
+                idx = [rng.randrange(count) for _ in range(rng.choice([count, count, max(1, count - 1), count + 1]))]
+                count = len(idx)
+                steps.append(["idx", idx])
+            elif k == "concat":
+                steps.append(["concat", rng.randrange(count + 1)])
+            else:
+                steps.append([k])
+        c = {"op": "pipe", "carrier": carrier, "rows": rows, "steps": steps}
+        if carrier == "fastq_chunks":
+            c["chunk"] = rng.choice([1, 40, 100])
+        if carrier == "fasta":
+            c["width"] = rng.choice([3, 60])
+        yield c
+
+
+def _derived(rng, n):
+    """genomic_sequence[intervals] where the interval object is DERIVED: clipped to the genome, a selection, sorted, with a
+    replaced column, concatenated, windows around (stranded) locations / interval midpoints, read from a BED file.
+    c["ivs"] = what the derived object must denote (computed here from the definitions of the derivations)"""
+    A = _alpha("ACGTN")
+    for _ in range(n):
+        nseq = rng.choice([1, 2, 3])
+        ss = [[rng.choice(A) for _ in range(rng.choice([4, 6, 9, 12]))] for _ in range(nseq)]
+        order = list(range(nseq))
+        backend = rng.choice(["dict", "dict", "fasta"])
+        if backend == "dict" and rng.random() < 0.4:
+            rng.shuffle(order)
+        rank = {ch: i for i, ch in enumerate(order)}
+        origin = rng.choice(["ivs", "ivs", "ivs", "bedfile", "loc", "loc", "center"])
+        via = rng.choice(["genomic", "genomic", "genomic", "unstranded"])
+        m = rng.choice([1, 2, 3, 4, 6])
+        g = {"origin": origin}
+        strands = [rng.choice([43, 45]) for _ in range(m)]
+        if origin in ("loc", "center"):
+            f = rng.choice([0, 1, 2, 3])
+            if origin == "loc":
+                locs = []
+                for st in strands:
+                    ch = rng.randrange(nseq)
+                    locs.append([ch, rng.randrange(len(ss[ch])), st])
+                g["locs"] = locs
+            else:
+                ivs0 = []
+                for st in strands:
+                    ch = rng.randrange(nseq)
+                    a = rng.randrange(len(ss[ch]))
+                    ivs0.append([ch, a, rng.randrange(a + 1, len(ss[ch]) + 1), st])
+                g["ivs0"] = ivs0
+                locs = [[ch, (a + b) // 2, st] for ch, a, b, st in ivs0]
+            lsteps = []
+            if rng.random() < 0.4:
+                if rng.random() < 0.5:
+                    idx = [rng.randrange(len(locs)) for _ in range(rng.choice([len(locs), max(1, len(locs) - 1)]))]
+                    locs = [locs[i] for i in idx]
+                    lsteps.append(["idx", idx])
+                else:
+                    locs = sorted(locs, key=lambda x: (rank[x[0]], x[1]))
+                    lsteps.append(["sorted"])
+            g["loc_steps"] = lsteps
+            g["flank"] = f
+            ivs = [[ch, max(0, p - f), min(len(ss[ch]), p + f + 1), st] for ch, p, st in locs]
+            must_clip = False
+        else:
+            ivs = []
+            must_clip = rng.random() < 0.5
+            for st in strands:
+                ch = rng.randrange(nseq)
+                L = len(ss[ch])
+                a = rng.randrange(L + 1)
+                b = rng.randrange(a, L + 1)
+                if must_clip and rng.random() < 0.6:
+                    b = L + rng.choice([1, 2, 5])
+                ivs.append([ch, a, b, st])
+            g["ivs0"] = [list(iv) for iv in ivs]
+        steps = []
+        kinds = [rng.choice(["clip", "idx", "idxarr", "mask", "slice", "sorted", "replace", "concat"]) for _ in range(rng.choice([0, 1, 1, 2, 3]))]
+        if must_clip:
+            kinds = ["clip"] + kinds
+        if origin in ("ivs",) and not kinds:
+            kinds = ["clip"]
+        for k in kinds:
+            cnt = len(ivs)
+            if k == "clip":
+                ivs = [[ch, max(0, a), min(len(ss[ch]), b), st] for ch, a, b, st in ivs]
+                steps.append(["clip"])
+            elif k in ("idx", "idxarr"):
+                idx = [rng.randrange(cnt) for _ in range(rng.choice([cnt, cnt, max(1, cnt - 1), cnt + 1]))]
+                ivs = [ivs[i] for i in idx]
+                steps.append([k, idx])
+            elif k == "mask":
+                mask = [rng.random() < 0.7 for _ in range(cnt)]
+                if not any(mask):
+                    mask[rng.randrange(cnt)] = True
+                ivs = [iv for iv, mk in zip(ivs, mask) if mk]
+                steps.append(["mask", mask])
+            elif k == "slice":
+                a = rng.randrange(cnt)
+                b = rng.randrange(a + 1, cnt + 1)
+                ivs = ivs[a:b]
+                steps.append(["slice", a, b])
+            elif k == "sorted":
+                ivs = sorted(ivs, key=lambda x: (rank[x[0]], x[1], x[2]))
+                steps.append(["sorted"])
+            elif k == "replace":
+                steps.append(["replace", rng.choice(["start", "stop"])])
+            else:
+                steps.append(["concat", rng.randrange(cnt + 1)])
+        g["steps"] = steps
+        c = {"op": "strand", "enc": "ACGTN", "via": via, "seqs": ss, "ivs": ivs, "entry": "getitem", "gi": g}
+        if backend == "fasta":
+            c.update(backend="fasta", width=rng.choice([3, 60]))
+        elif order != list(range(nseq)):
+            c["ctx"] = order
+        yield c
+
+
 def live_cases(tier, rng):
     return _small_calls(rng, 1500 if tier in ("thorough", "widen") else 600)
 
@@ -852,6 +1228,9 @@ def cases(tier, rng):
         rc = [{"op": "rc", "enc": e, "rows": [[rng.choice(_alpha(e)) for _ in range(5)], []], "shape": "ragged"} for e in ("ACTG", "ACGT", "ACTGN", "ACGTN")]
         rng.shuffle(rc)
         yield {"op": "fresh", "calls": calls + rc}
+    # 0a. pipelines over tables of sequences (carrier kinds x compositions), and derived interval objects as index
+    yield from _pipes(rng, 3000 if big else 400)
+    yield from _derived(rng, 3000 if big else 400)
     # 0b. fresh, not yet materialised views as inputs: ragged sequence arrays and interval tables
     for c in _small_calls(rng, 4000 if big else 600):
         if c["op"] == "rc" and c.get("shape") in ("ragged", "entry", "str"):
@@ -1124,6 +1503,8 @@ def nontrivial(c):
     op = c["op"]
     if op in ("seq", "fresh", "translate_custom", "rc_unsupported", "chrom"):
         return True
+    if op == "pipe":
+        return len(c["steps"]) >= 2 or c["carrier"] in LAZY_CARRIERS
     if op == "rc":
         flat = [b for r in c["rows"] for b in r]
         return any(b >= 97 or b in (78,) for b in flat) or len(c["rows"]) >= 2
@@ -1156,6 +1537,14 @@ def finding_key(c, got, exp):
         plain = {k: v for k, v in c.items() if k != "view"}
         if agree(plain, impl(plain), exp):
             return f"view:{op}:wrong-on-fresh-{c['view']['kind']}-view"
+    if op == "pipe":
+        kind = "lazy-table" if c["carrier"] in LAZY_CARRIERS else "array" if c["carrier"] == "ragged" else "table"
+        return f"pipe:{kind}:" + "-".join(st[0] for st in c["steps"])
+    if op == "strand" and "gi" in c:
+        g = c["gi"]
+        plain = {k: v for k, v in c.items() if k != "gi"}
+        if agree(plain, impl(plain), exp):
+            return f"strand:getitem:derived-intervals:{g['origin']}:" + "-".join(st[0] for st in g["steps"])
     if op == "rc_unsupported":
         return "revcomp:answers-for-a-non-DNA-encoding"
     if op == "chrom":
